@@ -168,14 +168,12 @@ def gen_values(rng, size, dtype, distinct):
     """flat list of tokens + python values"""
     if dtype.startswith('U'):
         width = int(dtype[1:])
-        alphabet = 'abcdefghijklmnopqrstuvwxyz'
-        seen, vals = set(), []
-        while len(vals) < size:
-            s = ''.join(rng.choice(alphabet) for _ in range(rng.randint(1, min(width, 3))))
-            if s not in seen:
-                seen.add(s)
-                vals.append(s)
-        return vals
+        alphabet = 'abcdefghijklmnopqrstuvwxyzABCDEFGHIJKLMNOPQRSTUVWXYZ'
+        pool = list(alphabet) if width == 1 else \
+            [a + b for a in alphabet[:26] for b in ('', 'x', 'yz')][:3 * 26]
+        rng.shuffle(pool)
+        # distinct as long as the alphabet lasts, then cyclic (neighbours still differ)
+        return [pool[k % len(pool)] for k in range(size)]
     if dtype.startswith('int'):
         ks = rng.sample(range(-60, 61), size) if distinct else [rng.randint(-9, 9) for _ in range(size)]
         return [str(k) for k in ks]
@@ -256,9 +254,11 @@ def interp_configs(ctx):
         size = 1
         for c in coords:
             size *= len(c)
-        npts = {1: 9, 2: 5, 3: 3}[d]
+        npts0 = {1: 9, 2: 5, 3: 3}[d]
         pts = []
         for j, c in enumerate(coords):
+            # now and then a single point along an axis (degenerate mesh vectors)
+            npts = 1 if (d > 1 and rng.random() < 0.12) else npts0
             # first config points: make sure ties and both outsides are present regularly
             want = None
             r = rng.random()
@@ -490,6 +490,15 @@ def point_class(case, j, p):
     return s + ('/in<' if t < Fr(1, 2) else '/in>')
 
 
+def mesh_lens(case):
+    return [len(pl) for pl in case['pts']] if 'pts' in case and 'plist' not in case else None
+
+
+def mesh_input_ok(lens):
+    """independent statement of when NumPy can build the ragged object array of a sparse mesh"""
+    return not (len(lens) > 1 and lens[0] == 1 and any(n != 1 for n in lens[1:]))
+
+
 def desc_of(case):
     return {k: v for k, v in case.items()}
 
@@ -499,13 +508,19 @@ def key_of(case, what):
         case['api'], case['sch'], '/'.join(case['ckinds']), case['dtype'], what)
 
 
-def check_interp_case(ctx, case, results, prod_pts, shape, model_out):
+def case_points(case):
+    """evaluation points of a case in output order (C order of the mesh / list order)"""
+    if 'plist' in case:
+        return [tuple(pfr(x) for x in pt) for pt in case['plist']]
+    return list(itertools.product(*[[pfr(x) for x in pl] for pl in case['pts']]))
+
+
+def check_interp_case(ctx, case, results, model_out):
     """oracle on the real results + correspondence with the model answers"""
     coords = [[pfr(x) for x in c] for c in case['coords']]
     dims = [len(c) for c in coords]
     numeric = not (case['dtype'].startswith('U') or case['dtype'].startswith('int'))
-    ptsF = [tuple(pfr(case['pts'][j][i]) for j, i in enumerate(ix))
-            for ix in itertools.product(*[range(n) for n in shape])]
+    ptsF = case_points(case)
     if numeric:
         vals = [parse_c(t) for t in case['vals']]
         scale = max([abs(a) + abs(b) for a, b in vals] + [Fr(1)])
@@ -514,9 +529,9 @@ def check_interp_case(ctx, case, results, prod_pts, shape, model_out):
         scale = Fr(1)
     tol = tol_for(case, scale)
     cats_hit = set()
-    for j, pl in enumerate(case['pts']):
-        for x in pl:
-            pc = point_class(case, j, pfr(x))
+    for j in range(len(coords)):
+        for x in (sorted(set(pt[j] for pt in ptsF)) if 'plist' in case else [pfr(x) for x in case['pts'][j]]):
+            pc = point_class(case, j, x)
             cats_hit.add(pc)
             ctx.hit('axis/' + pc)
     # expected by the textbook reference
@@ -538,8 +553,16 @@ def check_interp_case(ctx, case, results, prod_pts, shape, model_out):
         ctx.hit('conv/{}/{}'.format(case['api'], conv))
         rc = dict(desc_of(case), conv=conv)
         if status != 'ok':
-            ctx.violation(key_of(case, 'conv={} raised'.format(conv)), status, rc)
-            ctx.err(status.split(':')[1])
+            exc = status.split(':')[1]
+            lens = mesh_lens(case)
+            if conv.startswith('mesh') and lens and not mesh_input_ok(lens) and \
+                    'could not broadcast input array' in status:
+                what = ('conv={} mesh grid with one point on the first axis and several on another '
+                        'raised {}'.format(conv, exc))
+            else:
+                what = 'conv={} raised {}'.format(conv, exc)
+            ctx.violation(key_of(case, what), status + ' mesh lengths {}'.format(lens), rc)
+            ctx.err(exc)
         else:
             # --- oracle
             bad = None
@@ -561,11 +584,15 @@ def check_interp_case(ctx, case, results, prod_pts, shape, model_out):
                               'at point {} expected {} got {}'.format([str(x) for x in pt], exp, tok),
                               dict(rc, bad_point=[str(x) for x in pt]))
         # --- correspondence
-        mo = model_out.get(conv)
+        mo = model_out.get(conv.split('+')[0])
         if mo is None:
             continue
         if any(not a.startswith('ok r=') for a in mo):
-            ctx.disagree(rc, status, [a for a in mo if not a.startswith('ok r=')][0])
+            bad = [a for a in mo if not a.startswith('ok r=')][0]
+            if not (bad == 'err:mesh-input' and status.startswith('err:ValueError:could not broadcast')):
+                ctx.disagree(rc, status, bad)
+            else:
+                ctx.hit('mesh-input/rejected')
             continue
         mt = []
         for a in mo:
@@ -672,15 +699,595 @@ def run_interp(ctx, cases):
     outs = core.run_driver('C15', lines)
     for case, results, prod_pts, shape, spans in batch:
         model_out = {conv: outs[a:b] for conv, (a, b) in spans.items()}
-        check_interp_case(ctx, case, results, prod_pts, shape, model_out)
+        check_interp_case(ctx, case, results, model_out)
         affine_check(ctx, case)
+
+
+# ---------------------------------------------------------------------------
+# Resampling and linear_deform: the same interpolator model, reached through the operators
+
+def make_space(spec):
+    import odl
+    if spec['kind'] == 'uniform':
+        return odl.uniform_discr([float(pfr(x)) for x in spec['min']], [float(pfr(x)) for x in spec['max']],
+                                 spec['shape'], dtype=spec['dtype'])
+    part = odl.nonuniform_partition(*[[float(pfr(x)) for x in c] for c in spec['coords']],
+                                    min_pt=[float(pfr(x)) for x in spec['min']],
+                                    max_pt=[float(pfr(x)) for x in spec['max']])
+    return odl.DiscretizedSpace(part, odl.tensor_space(part.shape, dtype=spec['dtype']))
+
+
+def dyadic(fr):
+    d = fr.denominator
+    return d & (d - 1) == 0
+
+
+def gen_space_pair(rng, d, dtype, nonuniform):
+    """domain (coarse/fine, possibly non-uniform) and a uniform range space on the same set"""
+    mins, maxs, shape_d, shape_r, coords = [], [], [], [], []
+    for j in range(d):
+        n = rng.choice([2, 3, 4, 5] if d < 3 else [2, 3])
+        h = Fr(rng.choice([1, 2, 4, 8]), 4)
+        a = Fr(rng.randint(-4, 4), 2)
+        if nonuniform:
+            c = gen_coords(rng, n, rng.choice(['pow2', 'dyadic']))
+            lo = c[0] - Fr(rng.choice([1, 2]), 4)
+            hi = c[-1] + Fr(rng.choice([1, 2, 3]), 4)
+            coords.append(c)
+            mins.append(lo)
+            maxs.append(hi)
+            L = hi - lo
+        else:
+            L = n * h
+            mins.append(a)
+            maxs.append(a + L)
+        cands = [m for m in range(1, (10 if d == 1 else 7 if d == 2 else 5)) if dyadic(L / m / 2)]
+        shape_d.append(n)
+        shape_r.append(rng.choice(cands))
+    dom = dict(kind='nonuniform' if nonuniform else 'uniform', min=[frs(x) for x in mins],
+               max=[frs(x) for x in maxs], shape=shape_d, dtype=dtype)
+    if nonuniform:
+        dom['coords'] = [[frs(x) for x in c] for c in coords]
+    ran = dict(kind='uniform', min=dom['min'], max=dom['max'], shape=shape_r, dtype=dtype)
+    return dom, ran
+
+
+def op_configs(ctx):
+    rng = ctx.rng
+    out = []
+    num_dt = ['float64', 'float32', 'complex128', 'complex64']
+    reps = 1 if ctx.quick else 4
+    for rep in range(reps):
+        for d in (1, 2, 3):
+            schs = [''.join(t) for t in itertools.product('ln', repeat=d)]
+            if ctx.quick and d == 3:
+                schs = rng.sample(schs, 4)
+            for si, sch in enumerate(schs):
+                for nonuni in (False, True):
+                    dt = num_dt[(si + rep + d + nonuni) % 4]
+                    dom, ran = gen_space_pair(rng, d, dt, nonuni)
+                    size = 1
+                    for n in dom['shape']:
+                        size *= n
+                    out.append(dict(kind='interp', api='resampling', sch=sch, dtype=dt, dom=dom, ran=ran,
+                                    vals=gen_values(rng, size, dt, distinct=False),
+                                    single_string=(rng.random() < 0.5), aseed=rng.getrandbits(30)))
+                # linear_deform on a uniform template space
+                dt = num_dt[(si + rep) % 2 * 1]  # real templates (float64 / float32)
+                dom, _ = gen_space_pair(rng, d, dt, False)
+                size = 1
+                for n in dom['shape']:
+                    size *= n
+                disp = [[frs(Fr(rng.choice([0, 0, 1, -1, 2, -2, 3, -3, 4, -4, 6, -6, 12, -12]), 8))
+                         for _ in range(size)] for _ in range(d)]
+                out.append(dict(kind='interp', api='deform', sch=sch, dtype=dt, dom=dom, disp=disp,
+                                vals=gen_values(rng, size, dt, distinct=False),
+                                single_string=(rng.random() < 0.5), use_out=(rng.random() < 0.5),
+                                aseed=rng.getrandbits(30)))
+    return out
+
+
+def eval_op_case(case):
+    """Run Resampling / linear_deform; completes the case with coords / points read from the
+    real spaces; returns results dict."""
+    import odl
+    res = {}
+    sch = case['sch']
+    interp = SCH_NAME[sch[0]] if (case.get('single_string') and len(set(sch)) == 1) \
+        else [SCH_NAME[s] for s in sch]
+    try:
+        dom = make_space(case['dom'])
+        cv = dom.grid.coord_vectors
+        case['coords'] = [[frs(Fr(float(x))) for x in c] for c in cv]
+        case['ckinds'] = [case['dom']['kind']] * len(cv)
+        hs = [Fr(float(c[i + 1])) - Fr(float(c[i])) for c in cv for i in range(len(c) - 1)]
+        case['exact'] = all(dyadic(h) and h.numerator == 1 for h in hs)
+        x = dom.element(values_array(case))
+    except Exception as e:  # noqa
+        return {'setup': ('err:{}:{}'.format(type(e).__name__, str(e)[:100]), None)}
+
+    def guard(name, fn):
+        try:
+            with warnings.catch_warnings():
+                warnings.simplefilter('ignore')
+                r = fn()
+            res[name] = ('ok', flat_tokens(r, case['dtype']))
+        except Exception as e:  # noqa
+            res[name] = ('err:{}:{}'.format(type(e).__name__, str(e)[:100]), None)
+
+    if case['api'] == 'resampling':
+        try:
+            ran = make_space(case['ran'])
+            case['pts'] = [[frs(Fr(float(t))) for t in c] for c in ran.grid.coord_vectors]
+            op = odl.Resampling(dom, ran, interp)
+        except Exception as e:  # noqa
+            return {'setup': ('err:{}:{}'.format(type(e).__name__, str(e)[:100]), None)}
+        guard('mesh', lambda: op(x).asarray())
+
+        def with_out():
+            y = ran.element(np.full(ran.shape, np.nan))
+            try:
+                r = op(x, out=y)
+            except ValueError as e:
+                if 'returned a different value than `out`' not in str(e):
+                    raise
+                # the data has been written before Operator.__call__ objects to the return
+                # value of Resampling._call; reported separately, values still checked
+                case['inplace_protocol'] = str(e)[:80]
+                r = y
+            if r is not y:
+                raise AssertionError('out= given but a different object returned')
+            return y.asarray()
+        guard('mesh+out', with_out)
+    else:
+        try:
+            pts = dom.points()
+            disp = np.array([[float(pfr(t)) for t in row] for row in case['disp']])
+            field = dom.tangent_bundle.element([row.reshape(dom.shape) for row in disp])
+            moved = pts + disp.T
+            case['plist'] = [[frs(Fr(float(t))) for t in pt] for pt in moved]
+        except Exception as e:  # noqa
+            return {'setup': ('err:{}:{}'.format(type(e).__name__, str(e)[:100]), None)}
+        from odl.deform import linear_deform
+
+        def call():
+            if case.get('use_out'):
+                out = np.full(dom.size, np.nan, dtype=dom.dtype)
+                r = linear_deform(x, field, interp, out=out)
+                if not np.shares_memory(r, out):
+                    raise AssertionError('out= given but a different buffer returned')
+                return out
+            return linear_deform(x, field, interp)
+        guard('array', call)
+    return res
+
+
+def op_model_line(case):
+    dims = [len(c) for c in case['coords']]
+    head = 'interp kind=peraxis sch={} dims={} c={} v={}'.format(
+        ','.join(case['sch']), ','.join(str(n) for n in dims),
+        ';'.join(','.join(fs(pfr(x)) for x in c) for c in case['coords']), ','.join(case['vals']))
+    if case['api'] == 'resampling':
+        return 'mesh', head + ' conv=mesh x=' + ';'.join(','.join(fs(pfr(p)) for p in pl) for pl in case['pts'])
+    d = len(dims)
+    return 'array', head + ' conv=array x=' + ';'.join(
+        ','.join(fs(pfr(pt[j])) for pt in case['plist']) for j in range(d))
+
+
+def run_ops(ctx, cases, with_model=True):
+    batch, lines = [], []
+    for case in cases:
+        results = eval_op_case(case)
+        if 'setup' in results:
+            ctx.case(None)
+            ctx.violation('interp api={} sch={} dtype={} :: setup raised'.format(
+                case['api'], case['sch'], case['dtype']), results['setup'][0], desc_of(case))
+            continue
+        conv, line = op_model_line(case)
+        batch.append((case, results, conv, len(lines)))
+        lines.append(line)
+    outs = core.run_driver('C15', lines) if with_model else None
+    for case, results, conv, k in batch:
+        check_interp_case(ctx, case, results, {conv: [outs[k]]} if outs else {})
+        if case.get('inplace_protocol'):
+            ctx.violation('Resampling(domain, range, interp)(x, out=y) :: in-place call protocol, '
+                          'Resampling._call returns the raw array',
+                          'raised ValueError: ' + case['inplace_protocol'], desc_of(case))
+
+
+# ---------------------------------------------------------------------------
+# value dtypes: the cast of the evaluation points to the value dtype in _find_indices
+
+VKINDS = [('float64', 'float64'), ('float32', 'float32'), ('complex128', 'complex128'),
+          ('complex64', 'complex64'), ('int64', 'int'), ('int8', 'int'), ('U1', 'strNarrow'),
+          ('U31', 'strNarrow'), ('U32', 'strWide'), ('U40', 'strWide'), ('object', 'object')]
+
+
+def run_dtype_table(ctx, with_model=True):
+    """nearest_interpolator on every value-dtype class (float points): real outcome vs the
+    model's `findIndicesOutcome`, `np.can_cast` vs the model's `castSafe`; ORACLE: the closest
+    node's value is returned (no exception) for every value dtype."""
+    from odl.discr import discr_utils as du
+    c = [Fr(0), Fr(1), Fr(2), Fr(4)]
+    pts = [Fr(-1, 2), Fr(1, 2), Fr(3, 4), Fr(3), Fr(9, 2), Fr(2)]
+    lines, batch = [], []
+    for dt, vk in VKINDS:
+        if dt.startswith('U'):
+            vals = ['a', 'b', 'c', 'd'] if dt == 'U1' else ['a', 'bb', 'c', 'dd']
+            f = np.array(vals, dtype=dt)
+        elif dt == 'object':
+            vals = ['a', 'bb', 'c', 'dd']
+            f = np.array(vals, dtype=object)
+        elif dt.startswith('int'):
+            vals = ['3', '-5', '7', '11']
+            f = np.array([int(t) for t in vals], dtype=dt)
+        else:
+            vals = ['3/8', '-5/8', '7/4', '11/2']
+            f = np.array([float(Fr(t)) for t in vals], dtype=dt)
+        try:
+            with warnings.catch_warnings():
+                warnings.simplefilter('ignore')
+                r = du.nearest_interpolator(f, [np.array([float(x) for x in c])])(
+                    np.array([float(p) for p in pts]))
+            toks = [value_token(z, dt if not dt == 'object' else 'U9') for z in np.asarray(r).tolist()]
+            status = 'ok'
+        except Exception as e:  # noqa
+            status, toks = 'err:{}:{}'.format(type(e).__name__, str(e)[:100]), None
+        can = bool(np.can_cast(np.float64, np.dtype(dt), 'safe'))
+        exp = [vals[ref_nearest_index([c], (p,), [4])] for p in pts]
+        sig = ('dtype-table', dt)
+        ctx.case(sig, None)
+        ctx.hit('dtype/' + vk)
+        case = dict(kind='dtype', dtype=dt, vkind=vk)
+        if status != 'ok' or toks != exp:
+            ctx.violation('nearest_interpolator value dtype={} class={} float points :: closest-node rule'.format(dt, vk),
+                          'expected {} got {}'.format(exp, status if status != 'ok' else toks), case)
+        lines.append('cast vk={}'.format(vk))
+        batch.append((case, status, can))
+    if not with_model:
+        return
+    outs = core.run_driver('C15', lines)
+    for (case, status, can), ans in zip(batch, outs):
+        # model answer: `ok safe=0|1 outcome=ok|err:type`
+        impl = 'ok safe={} outcome={}'.format(int(can), 'ok' if status == 'ok' else 'err:type')
+        if ans != impl:
+            ctx.disagree(case, impl + ' (' + status[:80] + ')', ans)
+
+
+# ---------------------------------------------------------------------------
+# sampling: space.element(callable), sampling_function, point_collocation, vectorize
+
+CALL_KINDS = ['oop', 'ip', 'dual', 'dual_kw', 'vec', 'vec_noot', 'obj', 'obj_ip', 'kwargs',
+              'plain1d', 'ufunc1d', 'vec_branch']
+INPUT_CONVS = ['element', 'mesh', 'mesh+out', 'array', 'array+out', 'point']
+
+
+def gen_poly(rng, d, used, cplx, nterms=3):
+    """polynomial with few-bit coefficients in the variables `used`; [((re, im), exps)]"""
+    poly = [((Fr(rng.randint(-8, 8), 2), Fr(rng.randint(-4, 4), 2) if cplx else Fr(0)), (0,) * d)]
+    for j in used:  # make sure every used variable really occurs
+        e = [0] * d
+        e[j] = rng.choice([1, 1, 2])
+        poly.append(((Fr(rng.choice([-6, -3, -2, -1, 1, 2, 3, 5]), 2),
+                      Fr(rng.randint(-2, 2), 2) if cplx else Fr(0)), tuple(e)))
+    for _ in range(nterms if used else 0):
+        e = [0] * d
+        for j in rng.sample(used, min(len(used), rng.choice([1, 2]))):
+            e[j] = 1
+        poly.append(((Fr(rng.randint(-4, 4), 2), Fr(0)), tuple(e)))
+    return poly
+
+
+def peval(poly, pt):
+    re = im = Fr(0)
+    for (a, b), exps in poly:
+        m = Fr(1)
+        for x, e in zip(pt, exps):
+            m *= x ** e
+        re += a * m
+        im += b * m
+    return (re, im)
+
+
+def poly_json(poly):
+    return [[frs(a), frs(b), list(e)] for (a, b), e in poly]
+
+
+def poly_from_json(js):
+    return [((pfr(a), pfr(b)), tuple(e)) for a, b, e in js]
+
+
+def make_callable(case):
+    """python callable of the requested calling convention computing the polynomial"""
+    import odl
+    poly = poly_from_json(case['poly'])
+    poly2 = poly_from_json(case['poly2']) if case.get('poly2') else None
+    cplx = case['dtype'].startswith('complex')
+    ck = case['ck']
+    d = case['d']
+
+    def coef(a, b):
+        return complex(float(a), float(b)) if cplx else float(a)
+
+    def expr(x, pl=poly):
+        tot = None
+        for (a, b), exps in pl:
+            term = coef(a, b)
+            for j, e in enumerate(exps):
+                if e:
+                    term = term * x[j] ** e
+            tot = term if tot is None else tot + term
+        return tot
+
+    if ck == 'oop':
+        return lambda x: expr(x)
+    if ck == 'ip':
+        def f_ip(x, out):
+            out[:] = expr(x)
+        return f_ip
+    if ck == 'dual':
+        def f_dual(x, out=None):
+            if out is None:
+                return expr(x)
+            out[:] = expr(x)
+        return f_dual
+    if ck == 'dual_kw':
+        def f_dual_kw(x, *, out=None):
+            if out is None:
+                return expr(x)
+            out[:] = expr(x)
+        return f_dual_kw
+    if ck in ('vec', 'vec_noot', 'vec_branch'):
+        def scalar_f(x):
+            # x: array of the d coordinates of ONE point; plain python control flow
+            if ck == 'vec_branch' and not (x[0] < Fr(case['thr'])):
+                return expr(x, poly2)
+            return expr(x)
+        if ck == 'vec_noot':
+            return odl.util.vectorize(scalar_f)
+        return odl.util.vectorize(otypes=[case['dtype']])(scalar_f)
+    if ck == 'obj':
+        class Obj(object):
+            def __call__(self, x):
+                return expr(x)
+        return Obj()
+    if ck == 'obj_ip':
+        class ObjIp(object):
+            def __call__(self, x, out):
+                out[:] = expr(x)
+        return ObjIp()
+    if ck == 'kwargs':
+        def f_kw(x, c=0.0):
+            return expr(x) + c
+        return f_kw
+    if ck == 'plain1d':
+        # 1d function written in terms of x, not x[0]
+        class X(object):
+            def __init__(self, x):
+                self.x = x
+
+            def __getitem__(self, j):
+                return self.x
+        return lambda x: expr(X(x))
+    if ck == 'ufunc1d':
+        return {'negative': np.negative, 'square': np.square}[case['ufunc']]
+    raise KeyError(ck)
+
+
+def samp_expected(case, pt):
+    poly = poly_from_json(case['poly'])
+    if case['ck'] == 'vec_branch' and not (pt[0] < pfr(case['thr'])):
+        poly = poly_from_json(case['poly2'])
+    if case['ck'] == 'ufunc1d':
+        return {'negative': (-pt[0], Fr(0)), 'square': (pt[0] ** 2, Fr(0))}[case['ufunc']]
+    v = peval(poly, pt)
+    if case['ck'] == 'kwargs':
+        v = (v[0] + pfr(case['cval']), v[1])
+    return v
+
+
+def samp_configs(ctx):
+    rng = ctx.rng
+    out = []
+    dts = ['float64', 'float32', 'complex128', 'complex64']
+    reps = 1 if ctx.quick else 3
+    for rep in range(reps):
+        for d in (1, 2, 3):
+            for ki, ck in enumerate(CALL_KINDS):
+                if ck in ('plain1d', 'ufunc1d') and d != 1:
+                    continue
+                usages = ['all', 'partial', 'const'] if d > 1 else ['all', 'const']
+                if ck in ('ufunc1d', 'plain1d'):
+                    usages = ['all']
+                for ui, usage in enumerate(usages):
+                    dt = dts[(ki + ui + d + rep) % 4]
+                    if ck == 'ufunc1d':
+                        dt = 'float64' if rep % 2 == 0 else 'float32'
+                    if ck == 'vec_noot' and dt in ('float32', 'complex64'):
+                        dt = 'float64' if dt == 'float32' else 'complex128'
+                    nonuni = rng.random() < 0.35
+                    shape, coords, mins, maxs = [], [], [], []
+                    for j in range(d):
+                        n = rng.choice([1, 2, 3, 4] if d < 3 else [1, 2, 3])
+                        if nonuni:
+                            c = [Fr(rng.randint(-8, -4), 4)]
+                            for _ in range(n - 1):
+                                c.append(c[-1] + Fr(rng.choice([1, 2, 3, 5]), 4))
+                            coords.append(c)
+                            mins.append(c[0] - Fr(1, 4))
+                            maxs.append(c[-1] + Fr(1, 2))
+                        else:
+                            h = Fr(rng.choice([1, 2, 4]), 4)
+                            a = Fr(rng.randint(-4, 2), 2)
+                            mins.append(a)
+                            maxs.append(a + n * h)
+                        shape.append(n)
+                    sp = dict(kind='nonuniform' if nonuni else 'uniform', min=[frs(x) for x in mins],
+                              max=[frs(x) for x in maxs], shape=shape, dtype=dt)
+                    if nonuni:
+                        sp['coords'] = [[frs(x) for x in c] for c in coords]
+                    if usage == 'all':
+                        used = list(range(d))
+                    elif usage == 'partial':
+                        used = sorted(rng.sample(range(d), rng.randint(1, d - 1)))
+                    else:
+                        used = []
+                    cplx = dt.startswith('complex')
+                    case = dict(kind='sampling', ck=ck, d=d, dtype=dt, space=sp, usage=usage,
+                                poly=poly_json(gen_poly(rng, d, used, cplx)))
+                    if ck == 'vec_branch':
+                        case['poly2'] = poly_json(gen_poly(rng, d, used, cplx))
+                        case['thr'] = frs(Fr(rng.randint(-6, 2), 4))
+                    if ck == 'kwargs':
+                        case['cval'] = frs(Fr(rng.randint(-6, 6), 2))
+                    if ck == 'ufunc1d':
+                        case['ufunc'] = rng.choice(['negative', 'square'])
+                    out.append(case)
+    return out
+
+
+def run_sampling_case(ctx, case):
+    """ORACLE on the real code: every way of sampling the callable gives its values at the
+    grid points (exact)."""
+    from odl.discr.discr_utils import sampling_function, point_collocation
+    dt = case['dtype']
+    try:
+        space = make_space(case['space'])
+        cv = [[Fr(float(t)) for t in c] for c in space.grid.coord_vectors]
+        func = make_callable(case)
+    except Exception as e:  # noqa
+        ctx.case(None)
+        ctx.violation('sampling ck={} d={} dtype={} :: setup raised'.format(case['ck'], case['d'], dt),
+                      '{}: {}'.format(type(e).__name__, str(e)[:200]), case)
+        return
+    pts = list(itertools.product(*cv))
+    expected = [samp_expected(case, pt) for pt in pts]
+    exp_tok = [ctok(v) for v in expected]
+    nontrivial = len(set(exp_tok)) > 1
+    kwargs = {'c': float(pfr(case['cval']))} if case['ck'] == 'kwargs' else {}
+    shape = tuple(len(c) for c in cv)
+    allpts = np.array([[float(x) for x in pt] for pt in pts], dtype=float).T.reshape(len(cv), len(pts))
+
+    def garbage(shp):
+        return np.full(shp, np.nan, dtype=dt)
+
+    def run_conv(conv):
+        if conv == 'element':
+            return space.element(func, **kwargs).asarray()
+        sf = sampling_function(func, space.domain, out_dtype=dt)
+        if conv == 'mesh':
+            return point_collocation(sf, space.meshgrid, **kwargs)
+        if conv == 'mesh+out':
+            out = garbage(shape)
+            r = point_collocation(sf, space.meshgrid, out=out, **kwargs)
+            if r is not out:
+                raise AssertionError('out= given but a different object returned')
+            return out
+        if conv == 'array':
+            return sf(allpts, **kwargs)
+        if conv == 'array+out':
+            out = garbage((len(pts),))
+            sf(allpts, out=out, **kwargs)
+            return out
+        if conv == 'point':
+            vals = []
+            for pt in pts[:12]:
+                x = float(pt[0]) if len(pt) == 1 else [float(t) for t in pt]
+                r = sf(x, **kwargs)
+                if isinstance(r, np.ndarray):
+                    raise AssertionError('single point returned an array of shape {}'.format(r.shape))
+                vals.append(r)
+            return np.array(vals, dtype=dt)
+        raise KeyError(conv)
+
+    for conv in INPUT_CONVS:
+        if conv.startswith('array') and len(pts) == 1 and len(cv) == 1:
+            continue  # a (1,)-array in 1d is a single point by the documented input rules
+        try:
+            with warnings.catch_warnings():
+                warnings.simplefilter('ignore')
+                r = run_conv(conv)
+            status = 'ok'
+            toks = flat_tokens(r, dt)
+            if str(np.asarray(r).dtype) != dt:
+                status = 'err:dtype:result dtype {} instead of {}'.format(np.asarray(r).dtype, dt)
+        except Exception as e:  # noqa
+            status, toks = 'err:{}:{}'.format(type(e).__name__, str(e)[:120]), None
+        sig = ('sampling', case['ck'], case['d'], case['usage'], dt, conv, case['space']['kind'])
+        ctx.case(sig if nontrivial else None,
+                 {'case': {k: case[k] for k in ('ck', 'poly', 'space')}, 'conv': conv, 'impl': toks}
+                 if len(ctx.samples) < 10 and len(pts) <= 6 and nontrivial else None)
+        ctx.hit('sampling/{}/{}'.format(case['ck'], conv))
+        want = exp_tok[:12] if conv == 'point' else exp_tok
+        key = 'sampling ck={} usage={} d={} dtype={} grid={} :: input={}'.format(
+            case['ck'], case['usage'], case['d'], dt, case['space']['kind'], conv)
+        if status != 'ok':
+            ctx.violation(key + ' raised', status, dict(case, conv=conv))
+            ctx.err(status.split(':')[1])
+        elif toks != want:
+            k = [i for i, (a, b) in enumerate(zip(toks, want)) if a != b]
+            k = k[0] if k else -1
+            ctx.violation(key + ' values differ from the callable at the grid points',
+                          'shape {} entry {} (point {}): expected {} got {}'.format(
+                              list(shape), k, [str(x) for x in pts[k]] if k >= 0 else '?',
+                              want[k] if k >= 0 else len(want), toks[k] if k >= 0 else len(toks)),
+                          dict(case, conv=conv))
+
+
+def run_vector_valued(ctx):
+    """sampling_function on an array of callables / constants (vector valued)."""
+    from odl.discr.discr_utils import sampling_function, point_collocation
+    import odl
+    rng = ctx.rng
+    for rep in range(2 if ctx.quick else 8):
+        d = rng.choice([1, 2, 3])
+        shp = [rng.choice([2, 3]) for _ in range(d)]
+        sp = dict(kind='uniform', min=['0'] * d, max=[frs(Fr(n, 2)) for n in shp], shape=shp,
+                  dtype='float64')
+        space = make_space(sp)
+        cv = [[Fr(float(t)) for t in c] for c in space.grid.coord_vectors]
+        pts = list(itertools.product(*cv))
+        polys = [gen_poly(rng, d, sorted(rng.sample(range(d), rng.randint(1, d))), False) for _ in range(2)]
+        const = Fr(rng.randint(-4, 4), 2)
+        cases = [dict(ck='oop', d=d, dtype='float64', poly=poly_json(p)) for p in polys]
+        cases[1]['ck'] = 'dual'
+        funcs = [make_callable(cases[0]), float(const), make_callable(cases[1])]
+        exp = [[ctok(peval(polys[0], pt)) for pt in pts], [ctok((const, Fr(0)))] * len(pts),
+               [ctok(peval(polys[1], pt)) for pt in pts]]
+        for conv in ('mesh', 'mesh+out'):
+            key = 'sampling vector-valued array of callables d={} :: input={}'.format(d, conv)
+            rc = dict(kind='vector', d=d, conv=conv)
+            try:
+                sf = sampling_function(funcs, space.domain)
+                if conv == 'mesh':
+                    r = point_collocation(sf, space.meshgrid)
+                else:
+                    r = np.full((3,) + space.shape, np.nan)
+                    point_collocation(sf, space.meshgrid, out=r)
+                got = [flat_tokens(r[i], 'float64') for i in range(3)]
+                ctx.case(('vector', d, conv), None)
+                ctx.hit('sampling/vector/' + conv)
+                if got != exp:
+                    ctx.violation(key + ' values differ from the callables at the grid points',
+                                  'expected {} got {}'.format(exp, got)[:400], rc)
+            except Exception as e:  # noqa
+                ctx.case(None)
+                ctx.violation(key + ' raised', '{}: {}'.format(type(e).__name__, str(e)[:200]), rc)
+
+
+def run_sampling(ctx):
+    for case in samp_configs(ctx):
+        run_sampling_case(ctx, case)
+    run_vector_valued(ctx)
 
 
 # ---------------------------------------------------------------------------
 
 def run(ctx):
-    cases = interp_configs(ctx)
-    run_interp(ctx, cases)
+    run_interp(ctx, interp_configs(ctx))
+    run_ops(ctx, op_configs(ctx))
+    run_dtype_table(ctx)
+    run_sampling(ctx)
 
 
 def search(ctx, broken):
@@ -689,30 +1296,38 @@ def search(ctx, broken):
     saved = ctx.tier
     ctx.tier = 'thorough'
     try:
-        cases = interp_configs(ctx)
-        for case in cases:
+        for case in interp_configs(ctx):
             case['all_points'] = True
-            results, prod_pts, shape = eval_conventions(case)
-            check_interp_case(ctx, case, results, prod_pts, shape, {})
+            results, _, _ = eval_conventions(case)
+            check_interp_case(ctx, case, results, {})
             affine_check(ctx, case)
+        run_ops(ctx, op_configs(ctx), with_model=False)
+        run_dtype_table(ctx, with_model=False)
+        run_sampling(ctx)
     finally:
         ctx.tier = saved
 
 
 def replay(ctx, case):
     before = len(ctx.violations)
-    if case.get('kind') == 'interp':
-        c = dict(case)
-        c.pop('conv', None)
+    kind = case.get('kind')
+    c = dict(case)
+    c.pop('conv', None)
+    if kind == 'interp' and case.get('api') in ('resampling', 'deform'):
+        run_ops(ctx, [c], with_model=False)
+    elif kind == 'interp':
         c['all_points'] = True
-        if c.pop('affine', None):
-            results, prod_pts, shape = eval_conventions(c)
-            # affine replay: the recorded values already are the affine data; use the reference
-            check_interp_case(ctx, c, results, prod_pts, shape, {})
-        else:
-            results, prod_pts, shape = eval_conventions(c)
-            check_interp_case(ctx, c, results, prod_pts, shape, {})
+        was_affine = c.pop('affine', None)
+        results, _, _ = eval_conventions(c)
+        check_interp_case(ctx, c, results, {})
+        if not was_affine:
             affine_check(ctx, c)
+    elif kind == 'sampling':
+        run_sampling_case(ctx, c)
+    elif kind == 'dtype':
+        run_dtype_table(ctx, with_model=False)
+    elif kind == 'vector':
+        run_vector_valued(ctx)
     if len(ctx.violations) > before:
         v = ctx.violations[before]
         return '{} :: {}'.format(v['key'], v['what'])
